@@ -718,6 +718,7 @@ def check_waiter_fifo(ck):
 
 
 def run(ck):
+    ck._orig_repo = getattr(ck, "_orig_repo", None) or ck.repo
     ck.repo = normalized(ck.repo, NORM_MODULES)  # alias / named-boolean / temporary / setter-helper normalisation (vt/x_syncnorm.py)
     ck.rule("C35.order", "each queue class pairs its _put/_get container operations according to its discipline (append/popleft, heappush/heappop, append/pop()); nothing else touches the item container")
     ck.rule("C35.full", "full() == (maxsize > 0 and qsize >= maxsize) for all small maxsize/qsize (body folded exhaustively); the bound is fixed")
